@@ -110,22 +110,28 @@ def bounds_observation(chk, seed, n_cases):
         x = 0.1 + 5 * rng.random(n)
         if rng.random() < 0.2:
             x[:] = x[0]
+        # widely spread positive data with a negative parameter (minimum side): exp(parameter * x) underflows harmlessly for the
+        # large entries; an implementation must not turn that into an overflow
+        wide = rng.random() < 0.25
+        if wide:
+            x = 1.0 + 80 * rng.random(n)
+            x[int(rng.integers(0, n))] = 1.0 + 2 * rng.random()      # the smallest entry stays where exp(parameter * x) is representable
         s = pym.Signal("x", x)
         mx, mn, mean = x.max(), x.min(), x.mean()
         tol = 1e-10
-        p = float(rng.choice([1, 2, 3.5, 8, 20, -1, -2, -6.5, -20]))
+        p = float(rng.choice([-1, -2, -6.5, -20] if wide else [1, 2, 3.5, 8, 20, -1, -2, -6.5, -20]))
         y = float(pym.PNorm(s, p=p).response().sig_out[0].state)
         lo, hi = (mx, n ** (1 / p) * mx) if p > 0 else (n ** (1 / p) * mn, mn)
         chk.count()
         if not (lo * (1 - tol) <= y <= hi * (1 + tol)):
             chk.violation("C16/bound/PNorm", "PNorm(p=%s) = %r outside [%r, %r]" % (p, y, lo, hi), {"x": x.tolist(), "p": p})
-        rho = float(rng.choice([0.5, 1, 4, 25, -0.5, -1, -4, -25]))
+        rho = float(rng.choice([-4, -25] if wide else [0.5, 1, 4, 25, -0.5, -1, -4, -25]))
         y = float(pym.KSFunction(s, rho=rho).response().sig_out[0].state)
         lo, hi = (mx, mx + np.log(n) / rho) if rho > 0 else (mn + np.log(n) / rho, mn)
         chk.count()
         if not (lo - tol <= y <= hi + tol):
             chk.violation("C16/bound/KS", "KSFunction(rho=%s) = %r outside [%r, %r]" % (rho, y, lo, hi), {"x": x.tolist(), "rho": rho})
-        al = float(rng.choice([0.5, 1, 4, 25, -0.5, -1, -4, -25]))
+        al = float(rng.choice([-4, -25] if wide else [0.5, 1, 4, 25, -0.5, -1, -4, -25]))
         y = float(pym.SoftMinMax(s, alpha=al).response().sig_out[0].state)
         lo, hi = (mean, mx) if al > 0 else (mn, mean)
         chk.count()
@@ -148,7 +154,8 @@ def run(chk, replay=None):
     thorough = chk.tier == "thorough"
     chk.extra["rule"] = ("active-set cases (vector with ties, four dyadic fractions) with the set of admissible masks, and scaling "
                          "histories with exact scale factors, both printed by TLC; plus seeded numerical bound observations")
-    chk.assumptions += ["fractions are dyadic so that n*fraction is exact in floating point (the property's floor is taken of the exact product)",
+    chk.assumptions += ["[O] bounds: data for which exp(parameter * extreme entry) is representable (|rho| * min(x) < 700 on the minimum side); beyond that the plain formula of KSFunction underflows to log(0)",
+                        "fractions are dyadic so that n*fraction is exact in floating point (the property's floor is taken of the exact product)",
                         "[O] bounds: max <= S_p <= n^(1/p) max, max <= KS <= max + ln n / rho, mean <= softmax <= max (mirrored for negative parameters)"]
     name, mod, cfg = tlc.mc("Agg", consts(3, "minus_zero_slice"), spec="SpecSet", invariants=["ActiveSetSound"])
     r = tlc.run(name, cfg, extra_modules={name: mod}, expect_violation=True)
